@@ -3,6 +3,8 @@ import Tbx.Spec.Reach
 import Tbx.Proofs.SearchBasic
 import Tbx.Proofs.SearchComplete
 import Tbx.Proofs.SearchSound
+import Tbx.Proofs.SearchBfs
+import Tbx.Proofs.SearchFuel
 /-
 C15 — BFS and DFS decide reachability exactly and return valid (BFS: shortest) paths.
 
@@ -52,6 +54,32 @@ example : Reach.closedB utGraph (fun _ => false) (Reach.ball utGraph (fun _ => f
     Reach.edgesJoinB utGraph [0, 1, 5] [0, 3] = true ∧
     Reach.noShorterB utGraph (fun _ => false) [0] [5] 2 = true := by decide
 
+/-- objects used by the non-vacuity examples: `BFS::new(&[0], &[3], 6)` on the unit-test graph, and a filter that
+    removes both edges into node 3 (ids 4 and 7) -/
+def exObj : Searcher :=
+  { sources := [0], targetSet := #[false, false, false, true, false, false],
+    parents := #[some 0, none, none, none, none, none], target := none, wl := [], emptyTargets := false }
+
+def noIn3 : Nat → Bool := fun e => e == 4 || e == 7
+
+example : new [0] [3] 6 = some exObj := rfl
+
+theorem exObj_disjoint : DisjointST exObj := by
+  intro v hv
+  simp only [exObj, List.mem_singleton] at hv
+  subst hv; rfl
+
+/-- flag and the three path views of a result, for the examples -/
+def flagOf (r : Res (Bool × Searcher)) : Option Bool :=
+  match r with
+  | .ok (b, _) => some b
+  | _ => none
+
+def viewsOf (g : Graph) (r : Res (Bool × Searcher)) : Option (Option (List Nat) × Option (List Nat) × Option (List Nat)) :=
+  match r with
+  | .ok (_, s) => some (nodePath s, edgePath g s, pathIter s)
+  | _ => none
+
 /-! ### found ⇔ reachable -/
 
 /-- P0 `found_complete` (any pop discipline): `false` ⇒ no target is reachable from any source through
@@ -72,6 +100,11 @@ theorem found_complete (pop : List Nat → Option (Nat × List Nat)) (hp : PopOK
       intro v hv
       exact (loop_none_complete g filt (gt sr.targetSet) (· ∈ sr.sources) pop hp _ _ s'
         (init_CInv g filt _ sr par hpar) (fun v hs => (init_marked sr par hpar v).mpr hs) hd hl v hv).2
+
+/-- non-vacuity: DFS and BFS from 0 with target 3 and both edges into 3 filtered explore five nodes and return `false` -/
+example : (∃ sr', runWith popBack utGraph noIn3 exObj = .ok (false, sr')) ∧
+    (∃ sr', runWith popFront utGraph noIn3 exObj = .ok (false, sr')) ∧ PopOK popBack ∧ DisjointST exObj :=
+  ⟨⟨_, rfl⟩, ⟨_, rfl⟩, popBack_ok, exObj_disjoint⟩
 
 /-- what a successful run with a non-empty target set leaves behind: `target` is a target and the parents
     vector contains a tree path from a source to it -/
@@ -113,6 +146,12 @@ theorem found_sound (pop : List Nat → Option (Nat × List Nat)) (hp : PopOK po
   rw [h1]
   simpa using nodePathLoop_tree h3 (sr'.parents.size + 1) [] (by have := h3.length_le; omega)
 
+/-- non-vacuity: unfiltered DFS and BFS from 0 to 3 succeed with a 3-edge path (DFS: 0,4,5,3; BFS: 0,1,2,3) -/
+example : (∃ sr', runWith popBack utGraph (fun _ => false) exObj = .ok (true, sr')) ∧ exObj.emptyTargets = false ∧
+    viewsOf utGraph (runWith popBack utGraph (fun _ => false) exObj) = some (some [0, 4, 5, 3], some [1, 6, 7], some [3, 5, 4, 0]) ∧
+    viewsOf utGraph (runWith popFront utGraph (fun _ => false) exObj) = some (some [0, 1, 2, 3], some [0, 2, 4], some [3, 2, 1, 0]) :=
+  ⟨⟨_, rfl⟩, rfl, by decide, by decide⟩
+
 /-- P0 `paths_coherent`: after a successful run with a non-empty target set the three views agree: the iterator
     yields the node path in reverse, and the edge path has one edge per hop, edge `i` leading from node `i` to
     node `i+1` of the node path -/
@@ -135,6 +174,12 @@ theorem paths_coherent (pop : List Nat → Option (Nat × List Nat)) (hp : PopOK
     rw [h1]
     simpa using he1
 
+/-- non-vacuity: same run as above; with edge 5 (4→2) and edge 3 (1→5) filtered BFS finds 0,1,2,3 through edges 0,2,4 -/
+example : (∃ sr', runWith popFront utGraph (fun e => e == 5 || e == 3) exObj = .ok (true, sr')) ∧
+    viewsOf utGraph (runWith popFront utGraph (fun e => e == 5 || e == 3) exObj) =
+      some (some [0, 1, 2, 3], some [0, 2, 4], some [3, 2, 1, 0]) :=
+  ⟨⟨_, rfl⟩, by decide⟩
+
 /-- P0 `empty_targets`: with an empty target set every run that does not panic reports `true` -/
 theorem empty_targets (pop : List Nat → Option (Nat × List Nat)) (g : Graph)
     (filt : Nat → Bool) (sr sr' : Searcher) (b : Bool) (he : sr.emptyTargets = true)
@@ -147,6 +192,10 @@ theorem empty_targets (pop : List Nat → Option (Nat × List Nat)) (g : Graph)
     · cases h
     · simp only [Res.ok.injEq, Prod.mk.injEq] at h; exact h.1.symm
     · simp only [Res.ok.injEq, Prod.mk.injEq] at h; rw [← h.1]; exact he
+
+/-- non-vacuity: `BFS::new(&[0,1], &[], 6)` as in the unit test `multi_s_all_query` -/
+example : ∃ sr sr', new [0, 1] [] 6 = some sr ∧ sr.emptyTargets = true ∧
+    runWith popFront utGraph (fun _ => false) sr = .ok (true, sr') := ⟨_, _, rfl, rfl, rfl⟩
 
 /-- … and (used by the min-cut sweep of the max-flow slices) with an empty target LIST the marked set is exactly
     the set of nodes reachable from the sources through unfiltered edges -/
@@ -189,6 +238,11 @@ theorem empty_targets_closure (pop : List Nat → Option (Nat × List Nat)) (hp 
           (init_CInv g filt _ sr par hpar) (fun v hs => (init_marked sr par hpar v).mpr hs)
           (fun v _ => hT v) hl v hr).1
 
+/-- non-vacuity: from source 4 exactly the nodes 2,3,4,5 get marked -/
+example : ∃ sr sr', new [4] [] 6 = some sr ∧ runWith popBack utGraph (fun _ => false) sr = .ok (true, sr') ∧
+    (List.range 6).map (fun v => (gt sr'.parents v).isSome) = [false, false, true, true, true, true] :=
+  ⟨_, _, rfl, rfl, by decide⟩
+
 /-- headline: on a fresh object over disjoint lists, the flag is `true` iff the target list is empty or some
     target is reachable from some source through unfiltered edges (any pop discipline, so BFS and DFS) -/
 theorem search_decides (pop : List Nat → Option (Nat × List Nat)) (hp : PopOK pop) (g : Graph)
@@ -230,6 +284,11 @@ theorem search_decides (pop : List Nat → Option (Nat × List Nat)) (hp : PopOK
         have := hc t hr
         rw [(e5 t).mpr ht] at this
         cases this
+
+/-- non-vacuity: both values of the flag occur for disjoint non-empty lists -/
+example : flagOf (bfsRun 6 utGraph (fun _ => false) [0, 1] [3, 5]) = some true ∧
+    flagOf (dfsRun 6 utGraph (fun _ => false) [3] [0]) = some false ∧
+    flagOf (dfsRun 6 utGraph noIn3 [0] [3]) = some false := by decide
 
 /-! ### runs on one object are independent of earlier runs -/
 
@@ -342,5 +401,108 @@ theorem runs_independent_history (a x : Searcher) (hx : After a x)
   intro x' a' hxr har he
   have := h2 x' a' hxr har (by rw [hc.2.2.1]; exact he)
   exact this.2
+
+/-- non-vacuity: an object that first found 3, then failed under the filter, is `After exObj`; its next run gives
+    the same views as a run on `exObj` itself although its `target`, parents and worklist fields differ -/
+example : ∃ x y, runWith popFront utGraph (fun _ => false) exObj = .ok (true, x) ∧
+    runWith popFront utGraph noIn3 x = .ok (false, y) ∧ After exObj y ∧ y.target = some 3 ∧
+    y.parents ≠ exObj.parents ∧
+    viewsOf utGraph (runWith popFront utGraph (fun e => e == 0) y) = some (some [0, 4, 2, 3], some [1, 5, 4], some [3, 2, 4, 0]) := by
+  refine ⟨_, _, rfl, rfl, ?_, rfl, by decide, by decide⟩
+  exact .step popFront utGraph noIn3 _ _ false
+    (.step popFront utGraph (fun _ => false) exObj _ true .refl rfl) rfl
+
+/-! ### BFS: minimal number of edges -/
+
+/-- P1 `bfs_shortest`: with the queue discipline the node path of a successful run (non-empty target set, disjoint
+    sources and targets) is a valid path and no target can be reached from any source with fewer unfiltered edges -/
+theorem bfs_shortest (g : Graph) (filt : Nat → Bool) (sr sr' : Searcher) (hd : DisjointST sr)
+    (he : sr.emptyTargets = false) (h : runWith popFront g filt sr = .ok (true, sr')) :
+    ∃ p, nodePath sr' = some p ∧
+      Reach.ValidPath g filt (· ∈ sr.sources) (fun v => gt sr.targetSet v = true) p ∧
+      Reach.NoShorter g filt (· ∈ sr.sources) (fun v => gt sr.targetSet v = true) (p.length - 1) := by
+  unfold runWith at h
+  split at h
+  · cases h
+  · rename_i par hpar
+    split at h
+    · cases h
+    · cases h
+    · rename_i t s' hl
+      simp only [Res.ok.injEq, Prod.mk.injEq, true_and] at h
+      subst h
+      obtain ⟨l, hl1, hl2⟩ := loop_bfs g filt (gt sr.targetSet) (· ∈ sr.sources) hd _ _ s' t _
+        (init_BInv g filt _ sr par hpar) hl
+      obtain ⟨_, hT⟩ := loop_sound g filt (gt sr.targetSet) (· ∈ sr.sources) popFront popFront_ok _ _ s' (some t)
+        (init_SInv g filt sr par hpar) hl
+      refine ⟨l, ?_, hl1.valid (hT t rfl).1, hl2⟩
+      unfold nodePath nodePathFrom
+      simpa using nodePathLoop_tree hl1 (s'.par.size + 1) [] (by have := hl1.length_le; omega)
+    · simp only [Res.ok.injEq, Prod.mk.injEq] at h
+      rw [he] at h
+      exact absurd h.1 (by simp)
+
+/-- non-vacuity: BFS from 0 to {3} on the unit-test graph: 3 edges, and the judge's checker confirms that nothing
+    shorter exists while DFS's path with the filter {0} is longer than BFS's with no filter is not (both 3) -/
+example : (∃ sr', runWith popFront utGraph (fun _ => false) exObj = .ok (true, sr')) ∧ DisjointST exObj ∧
+    Reach.noShorterB utGraph (fun _ => false) [0] [3] 3 = true ∧
+    Reach.noShorterB utGraph (fun _ => false) [0] [3] 4 = false :=
+  ⟨⟨_, rfl⟩, exObj_disjoint, by decide, by decide⟩
+
+/-! ### the model is total on the property's domain -/
+
+/-- the fuel passed by `runWith` is sufficient for both disciplines (they remove exactly one element per pop) -/
+theorem fuel_sufficient (pop : List Nat → Option (Nat × List Nat)) (hp : PopLen pop) (g : Graph)
+    (filt : Nat → Bool) (sr : Searcher) : runWith pop g filt sr ≠ .fuel := by
+  unfold runWith
+  split
+  · simp
+  · rename_i par hpar
+    have hps := (resetParents_spec sr par hpar).1
+    have hne := loop_ne_fuel g filt (gt sr.targetSet) pop hp (runFuel sr) { par := par, wl := sr.sources }
+      (by have := unm_le par; simp only [runFuel]; omega)
+    split
+    · simp
+    · rename_i hl; exact absurd hl hne
+    · simp
+    · simp
+
+theorem fuel_sufficient_bfs_dfs (g : Graph) (filt : Nat → Bool) (sr : Searcher) :
+    runWith popFront g filt sr ≠ .fuel ∧ runWith popBack g filt sr ≠ .fuel :=
+  ⟨fuel_sufficient _ popFront_len g filt sr, fuel_sufficient _ popBack_len g filt sr⟩
+
+/-- on a graph all of whose edge targets are below `number_of_nodes`, with in-range sources, a run neither panics
+    nor runs out of fuel: it returns a flag -/
+theorem run_total (pop : List Nat → Option (Nat × List Nat)) (hp : PopOK pop) (hl : PopLen pop) (g : Graph)
+    (filt : Nat → Bool) (sr : Searcher) (hs : ∀ v, v ∈ sr.sources → v < sr.parents.size)
+    (hg : ∀ u v e, u < sr.parents.size → (v, e) ∈ g u → v < sr.parents.size) :
+    ∃ b sr', runWith pop g filt sr = .ok (b, sr') := by
+  have hf := fuel_sufficient pop hl g filt sr
+  obtain ⟨par, hpar⟩ : ∃ par, resetParents sr = some par := by
+    unfold resetParents
+    exact setAll_isSome some sr.sources _ (by simpa using hs)
+  have hps := (resetParents_spec sr par hpar).1
+  have hnp := loop_ne_panic g filt (gt sr.targetSet) pop hp (runFuel sr) { par := par, wl := sr.sources }
+    (by simp only; rw [hps]; exact hg) (fun x hx => (init_marked sr par hpar x).mpr hx)
+  unfold runWith at hf ⊢
+  rw [hpar] at hf ⊢
+  simp only at hf ⊢
+  cases hlp : loop g filt (gt sr.targetSet) pop (runFuel sr) { par := par, wl := sr.sources } with
+  | panic => exact absurd hlp hnp
+  | fuel => rw [hlp] at hf; simp at hf
+  | done r s' =>
+    cases r with
+    | none => exact ⟨_, _, rfl⟩
+    | some t => exact ⟨_, _, rfl⟩
+
+/-- non-vacuity: `exObj` over the unit-test graph satisfies the hypotheses (all edge targets are below 6) -/
+example : (∀ v, v ∈ exObj.sources → v < exObj.parents.size) ∧
+    (∀ u v e, u < exObj.parents.size → (v, e) ∈ utGraph u → v < exObj.parents.size) := by
+  refine ⟨by intro v hv; simp [exObj] at hv ⊢; omega, ?_⟩
+  intro u v e hu hm
+  have hu' : u < 6 := hu
+  show v < 6
+  match u, hu' with
+  | 0, _ | 1, _ | 2, _ | 3, _ | 4, _ | 5, _ => simp [utGraph] at hm <;> omega
 
 end Tbx.Props.C15
